@@ -74,6 +74,36 @@ LEVEL = {
         "design_ref": "5.18", "note": "the renderer is trusted to produce the YAML it intends; YAML's own scalar conversions are excluded from the vocabulary",
         "technique": "property-based round-trip testing (rapid) over a YAML grammar + mutation + native go fuzzing",
     },
+    "C01": {
+        "text": "Randomised exploration of (chain of validly configured built-in plugins) x (history of structured, mutated and retransmitted datagrams, relay-nested for DHCPv6) through the real HandleMsg4/HandleMsg6 via the capture hook, with fresh stateful plugin instances per case; oracle: no panic, no wedge (watchdog + goroutine state), at most one parseable reply, and a canary request is still handled afterwards. Thorough adds coverage-guided native fuzzing of whole histories.",
+        "design_ref": "5.1", "note": "sampling of an unbounded space; datagrams <= 1500 bytes in rapid cases; chains use a fixed set of valid argument variants",
+        "technique": "stateful property-based testing (rapid) of datagram histories + native go fuzzing, crash/wedge/canary oracle",
+    },
+    "C11": {
+        "text": "The opcode x message-type matrix is enumerated completely on every run and the rest of the header/option space is sampled under empty, synthetic and built-in chains; an independent classification of each datagram decides whether any output is allowed, and every output is compared field by field with its request.",
+        "design_ref": "5.11", "note": "library parse is the definition of 'unparseable'",
+        "technique": "exhaustive enumeration (opcode x type) + property-based testing (rapid) + native go fuzzing with a field-echo oracle",
+    },
+    "C12": {
+        "text": "Message type x client-id x rapid-commit x relay depth 0..2 is enumerated completely on every run; relay nesting to depth 4, per-layer options, source addresses, ports and listener binding are sampled; replies are read with the harness's own walker and compared layer by layer with the request.",
+        "design_ref": "5.12", "note": "empty chain, so only the server itself can drop",
+        "technique": "exhaustive enumeration of the type table + property-based testing (rapid) + native go fuzzing with a mirror oracle",
+    },
+    "C13": {
+        "text": "Model-based testing of LoadPlugins and the dispatch loops with synthetic plugins covering every handler behaviour the statement lists; the model is a ten-line interpreter of the statement. Built-in handlers are wrapped and checked for 'nil only with stop' over C01's histories.",
+        "design_ref": "5.13", "note": "synthetic plugins are registered through the public RegisterPlugin API",
+        "technique": "property-based testing (rapid) against an interpreter of the chain semantics, invocation-log oracle",
+    },
+    "C15": {
+        "text": "The whole RFC 2131 section 4.1 decision table (900 rows incl. listener binding) is enumerated on every run and sampled with random addresses; destination, port, interface pinning and the decoded layer-2 frame are compared with the cascade written independently.",
+        "design_ref": "5.15", "note": "the raw-socket tail of sendEthernet is not executed (frame captured after serialisation)",
+        "technique": "exhaustive enumeration of the decision table + property-based testing (rapid)",
+    },
+    "C16": {
+        "text": "Generated concurrent scenarios (8..64 goroutines through full DHCPv4/DHCPv6 chains, lease files rewritten meanwhile) on a -race build: any race-detector report is a violation, every reply must belong to its request (buffer recycling), and the multiset of replies must satisfy invariants that every serial order satisfies. Schedules are sampled, not enumerated.",
+        "design_ref": "5.16", "note": "weakest claim: the Go scheduler owns the interleavings; failures here do not shrink",
+        "technique": "randomised concurrent stress under the Go race detector + cross-talk and serial-equivalence invariants",
+    },
 }
 
 NOT_APPLICABLE = [
@@ -92,6 +122,8 @@ ENGINES = [
      "kind_free_text": "lease files from a grammar through file.Plugin.Setup4/Setup6, independent parser as model, autorefresh rewrite sequences, dual-stack"},
     {"name": "conf", "path": "harness/conf", "serves_properties": ["C18"],
      "kind_free_text": "structured configurations rendered to YAML and loaded with config.Load; mutated text; FuzzConfigLoad"},
+    {"name": "srv", "path": "harness/srv", "serves_properties": ["C01", "C11", "C12", "C13", "C15", "C16"],
+     "kind_free_text": "datagrams fed to HandleMsg4/HandleMsg6 through the capture hook (server/verif_on.go); histories, decision tables, synthetic plugins, concurrent scenarios under -race, native fuzz targets"},
     {"name": "pd6", "path": "harness/pd6", "serves_properties": ["C08", "C09"],
      "kind_free_text": "DHCPv6 prefix-delegation message histories (wire-built requests) through prefix.Plugin.Setup6 against an owner table and held sets"},
 ]
